@@ -379,7 +379,12 @@ func cmdCheck(args []string) int {
 			}
 		}
 		if nrel == 0 {
-			inconclusive = append(inconclusive, r.name+": no obligation of "+*prop+" was reached (vacuous)")
+			// the harness contributes only its implicit obligations (no panic, no deadlock on any explored path)
+			if res.Paths == 0 {
+				inconclusive = append(inconclusive, r.name+": no obligation of "+*prop+" was reached (vacuous)")
+			} else {
+				fmt.Printf("  note: %s contributes only its implicit obligations (no panic / no deadlock on %d paths) to %s\n", r.name, res.Paths, *prop)
+			}
 		}
 		for _, v := range res.Violations {
 			if !relevant(v.Obligation, *prop, r.spec) {
